@@ -33,6 +33,16 @@ Theorem C16_hinted_range_sufficient_for_selection : forall lb ss r lo hi,
 Proof. exact pick_clip. Qed.
 Print Assumptions C16_hinted_range_sufficient_for_selection.
 
+(* The selector pool shares selectors between the operators of a query by a key that leaves out
+   hints.Range; whenever the requests of a query that agree on the key agree on the whole select
+   (checked on the select list of every recorded query, CasesLib.hint_case_ok), every operator is
+   handed a selector that issues exactly the select it asked for. *)
+From Verif Require Pool.
+Theorem C16_selector_pool_transparent : forall rs, Pool.keys_determine rs = true ->
+  forall p, (forall x, In x p -> In x rs) -> Pool.pool_run p rs = rs.
+Proof. exact Pool.pool_transparent. Qed.
+Print Assumptions C16_selector_pool_transparent.
+
 Example C16_example :
   let v := mkVS [mkM 0 MEq 1] 60000 60000 None None 1 in
   let e := EAgg "sum" false [2%N] None (EParen (EBin "+" false OneToOne false [] [] (ECall "rate" [EMat v 300000]) (EVec v))) in
